@@ -5,14 +5,14 @@ def c10(tier):
     runs = []
     if tier == "quick":
         for t in TOPOS_QUICK:
-            runs.append(H("c10_morph", "plain", 300, t, timeout_per_case=8))
-        runs.append(H("c10_sepinout", "plain", 160, "4,4,4,4", timeout_per_case=8))
-        runs.append(H("c10_morph", "asan", 90, "4,4,4,4", timeout_per_case=20, params=dict(maxitems=1200)))
+            runs.append(H("c10_morph", "plain", 240, t, timeout_per_case=8))
+        runs.append(H("c10_sepinout", "plain", 120, "4,4,4,4", timeout_per_case=8))
+        runs.append(H("c10_morph", "asan", 80, "4,4,4,4", timeout_per_case=20, params=dict(maxitems=1200)))
         runs.append(H("c10_sepinout", "asan", 40, "3,5", timeout_per_case=20, params=dict(maxitems=1200)))
     else:
         for t in TOPOS_THOROUGH:
-            runs.append(H("c10_morph", "plain", 600, t, timeout_per_case=8))
-            runs.append(H("c10_sepinout", "plain", 200, t, timeout_per_case=8))
+            runs.append(H("c10_morph", "plain", 500, t, timeout_per_case=8))
+            runs.append(H("c10_sepinout", "plain", 160, t, timeout_per_case=8))
         for t in (None, "4,4,4,4", "3,5"):
             runs.append(H("c10_morph", "asan", 250, t, timeout_per_case=20, params=dict(maxitems=2500)))
         runs.append(H("c10_sepinout", "asan", 120, "4,4,4,4", timeout_per_case=20, params=dict(maxitems=2500)))
